@@ -333,6 +333,18 @@ def run_depths(case, part):
         "external-reference-member": lambda b, v: dict(b, external_references=[{"source_name": "s", "description": v}]) if b["type"] == "identity" else None,
         "unregistered-type-in-bundle": lambda b, v: {"type": "bundle", "id": "bundle--3f7f0c5f-5d54-4292-94ea-ec1e1952be12", "objects": [b, {"type": "x-unreg", "id": "x-unreg--3f7f0c5f-5d54-4292-94ea-ec1e1952be13", "deep": v}]},
     }
+    def nested_bundles(b, v):
+        # the only recursive TYPE: a bundle whose member is a bundle whose member is ... (as deep as the value handed over is nested; two JSON levels per bundle)
+        depth, cur = 0, v
+        while isinstance(cur, (dict, list)) and cur:
+            cur = next(iter(cur.values())) if isinstance(cur, dict) else cur[0]
+            depth += 1
+        j = dict(b)
+        for i in range(max(1, depth // 2)):
+            j = {"type": "bundle", "id": "bundle--3f7f0c5f-5d54-4292-94ea-ec1e1952be%02x" % (i % 200 + 20), "objects": [j]}
+        return j
+    places["bundle-nested-in-bundles"] = nested_bundles
+    places["bundle-objects-is-nested-container"] = lambda b, v: {"type": "bundle", "id": "bundle--3f7f0c5f-5d54-4292-94ea-ec1e1952be12", "objects": v if isinstance(v, list) else [v]}
     b = bases[case["base"]]
     version = "2.1" if "spec_version" in b else "2.0"
     part.state(("depths", case["base"]), nontrivial=True)
